@@ -36,22 +36,31 @@ func verifC14Universe(n int) []string {
 // verifC14Quorum drives CheckProposal with n validators and k certificate
 // entries whose member/outsider/repeated status, key binding and signature
 // validity are all decided by the solver.
-func verifC14Quorum(maxN, maxK int) {
+func verifC14Quorum(maxN, maxK int, shareKeys bool) {
 	n := 1 + vrt.Choice("n", maxN)
 	k := vrt.Choice("k", maxK+1)
 	vals := verifC14Universe(n)
 
-	addr := make([]string, k)   // address claimed by entry i (1 symbolic byte)
-	bound := make([]bool, k)    // key of entry i really hashes to that address
-	valid := make([]bool, k)    // signature of entry i verifies for the certified id under its key
+	addr := make([]string, k)    // address claimed by entry i (1 symbolic byte)
+	keyOf := make([]int, k)      // the public key entry i carries: its own or one an earlier entry carries too
+	keyAddr := make([]string, k) // the address key j really hashes to (1 symbolic byte)
+	bound := make([]bool, k)     // key of entry i really hashes to the address the entry claims
+	valid := make([]bool, k)     // signature of entry i verifies for the certified id under its key
 	signs := make([]*chainedBftPb.QuorumCertSign, k)
 	for i := 0; i < k; i++ {
+		keyAddr[i] = vrt.String("keyaddr"+string([]byte{byte('0' + i)}), 1)
+	}
+	for i := 0; i < k; i++ {
 		addr[i] = vrt.String("addr"+string([]byte{byte('0' + i)}), 1)
-		bound[i] = vrt.Bool("bound" + string([]byte{byte('0' + i)}))
+		keyOf[i] = i
+		if shareKeys {
+			keyOf[i] = vrt.Choice("key", i+1)
+		}
+		bound[i] = addr[i] == keyAddr[keyOf[i]]
 		valid[i] = vrt.Bool("valid" + string([]byte{byte('0' + i)}))
 		signs[i] = &chainedBftPb.QuorumCertSign{
 			Address:   addr[i],
-			PublicKey: string([]byte{'p', byte('0' + i)}),
+			PublicKey: string([]byte{'p', byte('0' + keyOf[i])}),
 			Sign:      []byte{byte(i)},
 		}
 	}
@@ -63,14 +72,13 @@ func verifC14Quorum(maxN, maxK int) {
 			}
 			return 0, false
 		},
-		Addr: func(id int) string {
-			if bound[id] {
-				return addr[id]
-			}
-			return "~unbound~"
-		},
+		Addr: func(id int) string { return keyAddr[id] },
 		Verify: func(id int, sig, msg []byte) bool {
-			return len(msg) == 1 && msg[0] == certID[0] && len(sig) == 1 && int(sig[0]) == id && valid[id]
+			if len(msg) != 1 || msg[0] != certID[0] || len(sig) != 1 || int(sig[0]) >= k {
+				return false
+			}
+			e := int(sig[0]) // the signature of entry e verifies under the key that entry carries, if valid at all
+			return keyOf[e] == id && valid[e]
 		},
 	}
 	root := &ProposalNode{In: &QuorumCert{VoteInfo: &VoteInfo{ProposalId: certID, ProposalView: 1, ParentId: []byte{0}, ParentView: 0}}}
@@ -126,5 +134,5 @@ func verifC14Quorum(maxN, maxK int) {
 	vrt.Assert(!(allGood && !repeated && distinct >= need) || err == nil, "quorum-complete")
 }
 
-func VerifC14QuorumQuick()    { verifC14Quorum(4, 4) }
-func VerifC14QuorumThorough() { verifC14Quorum(5, 5) }
+func VerifC14QuorumQuick()    { verifC14Quorum(4, 4, true) }
+func VerifC14QuorumThorough() { verifC14Quorum(5, 5, false) }
